@@ -216,6 +216,31 @@ def define_body(ctx, case):
     et = np.where(w > 0, et, 0.0)
     want = float(np.sum(w * et) / np.sum(w))
     ctx.check_close(f"definition:block-energy:{tag}", case, f"block energy - sum(w E~)/sum(w) [{tag}]", float(e), want, 1e-10, max(1.0, abs(want)))
+    # second pass: the walkers (hence their local energies) do not depend on e_estimate, so the running estimate can be placed just inside /
+    # just outside the sqrt(2/dt) window of a chosen walker - the cap must follow the REAL local energy, to the last digit
+    elc = np.asarray(P.trial.calc_energy(pd["walkers"], hd, P.wave_data))
+    k = int(np.argmax(np.abs(elc.imag) * (w > 0)))
+    for side, eps in ((+1, 1e-3), (-1, 1e-3), (+1, -1e-3), (+1, 1e-6)):
+        pd1 = sl.copy_pd(pd0)
+        e_edge = float(elc[k].real) + side * cap * (1.0 - eps)
+        pd1["e_estimate"] = jnp.asarray(e_edge)
+        try:
+            e2, pd2 = sl.entry_point(case["entry"], smp, P, hd)(0.0, obs, pd1)
+        except Exception as ex:
+            ctx.fail(f"definition:raised-{type(ex).__name__}:{tag}", case, f"{type(ex).__name__}: {str(ex)[:300]}")
+            return
+        w2 = np.asarray(pd2["weights"])
+        if np.sum(w2) <= 0 or not np.all(np.isfinite(w2)):
+            continue
+        el2 = np.real(np.asarray(P.trial.calc_energy(pd2["walkers"], hd, P.wave_data)))
+        d2 = np.abs(el2 - e_edge)
+        if np.any(np.abs(d2 - cap) < 1e-9 * cap):
+            continue
+        et2 = np.where(d2 > cap, e_edge, el2)
+        et2 = np.where(w2 > 0, et2, 0.0)
+        want2 = float(np.sum(w2 * et2) / np.sum(w2))
+        ctx.count("cap-edge-cases")
+        ctx.check_close(f"definition:block-energy-at-cap-edge:{tag}", case, f"block energy with e_estimate {eps:+.0e} inside the window edge of walker {k} [{tag}]", float(e2), want2, 1e-10, max(1.0, abs(want2)))
     # overlaps handed back are those of the returned walkers
     ov = np.asarray(P.trial.calc_overlap(pd["walkers"], P.wave_data))
     ctx.check_close(f"definition:returned-overlaps:{tag}", case, "returned overlaps - recomputed", np.asarray(pd["overlaps"]), ov, 1e-10, float(np.max(np.abs(ov))) + 1e-300)
@@ -224,8 +249,52 @@ def define_body(ctx, case):
         ctx.fail(f"definition:killed-fraction:{tag}", case, f"n_killed_walkers = {nk!r}")
 
 
+# ---- (4) the option matrix through complete driver runs (thorough tier; quick runs two combinations) ---------------------------------
+@st.composite
+def drv_case(draw, tier, shard=0, nshards=1):
+    combos = [m for i, m in enumerate(MATRIX) if i % nshards == shard]
+    if tier == "quick":
+        combos = combos[:1]
+    ad_mode, orot, dosr, wt = draw(st.sampled_from(combos))
+    p = draw(sl.problem(walker_types=(wt,), shapes={"rhf": [(3, (1, 1))], "uhf": [(3, (2, 1))]}, n_walkers=(4,), nchol=(2,), dts=(0.01,)))
+    p["n_batch"] = 1
+    p.update({"ad_mode": ad_mode, "orbital_rotation": orot, "do_sr": dosr})
+    return p
+
+
+def drv_body(ctx, case):
+    from vlib import runs
+
+    P = sl.Problem(case)
+    if not P.converged:
+        ctx.count("rejected:scf-not-converged")
+        hypothesis.assume(False)
+    combo = f"ad_mode={case['ad_mode']},orbital_rotation={case['orbital_rotation']},do_sr={case['do_sr']},walker_type={case['walker_type']}"
+    ctx.case(case, nontrivial=True, classes=["driver-matrix:" + combo])
+    smp = sampling.sampler(n_prop_steps=2, n_ene_blocks=1, n_sr_blocks=2, n_blocks=3)
+    opts = runs.default_options(seed=int(case["seed"]) % 100000, n_walkers=P.nw, dt=P.dt, n_prop_steps=2, n_ene_blocks=1, n_sr_blocks=2, n_blocks=3, walker_type=case["walker_type"],
+                                ad_mode=case["ad_mode"], orbital_rotation=bool(case["orbital_rotation"]), do_sr=bool(case["do_sr"]))
+    o = np.diag(np.arange(P.norb, dtype=float))
+    obs = [np.stack([o, o]), 0.0] if case["ad_mode"] in ("forward", "reverse") else None
+    try:
+        out = runs.run_driver(P.ham_data0, P.ham, P.prop, P.trial, P.wave_data, smp, obs, opts)
+        out2 = runs.run_driver(P.ham_data0, P.ham, P.prop, P.trial, P.wave_data, smp, obs, opts)
+    except Exception as ex:
+        ctx.fail(f"driver-callable:{combo}", case, f"{type(ex).__name__}: {str(ex)[:300]}")
+        return
+    raw, raw2 = out["samples_raw"], out2["samples_raw"]
+    if raw is None or raw.shape != (3, 3) or not np.all(np.isfinite(raw)):
+        ctx.fail(f"driver-samples:{combo}", case, f"samples_raw.dat: {None if raw is None else raw.tolist()}")
+        return
+    if not np.array_equal(raw, raw2):
+        ctx.fail(f"driver-not-reproducible:{combo}", case, "two driver runs with the same seed wrote different samples_raw.dat")
+    if out["e"] is None or not np.isfinite(out["e"]):
+        ctx.fail(f"driver-energy:{combo}", case, f"returned energy {out['e']!r}")
+
+
 SUBCHECKS = [
     SubCheck("option_matrix_callable", body=matrix_body, strategy=matrix_case, examples={"quick": 4, "thorough": 24}, shards={"quick": 16, "thorough": 16}, shrink=False),
     SubCheck("entry_points_agree", body=agree_body, strategy=agree_case, examples={"quick": 6, "thorough": 60}, shards={"quick": 4, "thorough": 8}, shrink=False),
+    SubCheck("driver_option_matrix", body=drv_body, strategy=drv_case, examples={"quick": 1, "thorough": 4}, shards={"quick": 2, "thorough": 16}, shrink=False),
     SubCheck("single_block_definition", body=define_body, strategy=define_case, examples={"quick": 12, "thorough": 120}, shards={"quick": 4, "thorough": 8}, shrink=False),
 ]
